@@ -3,7 +3,7 @@ from .core import BASE_TRUST, LEAN, Problem
 
 META = {
     "category": "proof",
-    "text": "PARTIAL. Lean 4 proof of the access discipline (own-index with disjoint ranges / sole goroutine / common lock / synchronisation object / read-only => no data race in ANY interleaving of ANY fork-join execution, all n, all access lists) and of the partition GoroutineTaskManager.RecordRange as generated from the source on every run (disjoint, tiles [0,len) in order, all len, all n>0; plus the stride and partition index spaces); the access facts of every worker closure of lib/query are regenerated from /repo and checked by `decide` (theorems facts_ok, facts_consistent, manager_fields_locked: consistent per location, NO unguarded access; pre-finding F7 was repaired in /repo by commit bec97d6 and stays watched: a new unguarded access breaks facts_ok and is reported as race:<file>:<function>:<variable>). TRUSTED, not proved: the step 'syntactic class => actual access pattern of the running program' (callees of the closures are not analysed) and the Go memory model; cross-checked on every run by the Go race detector over filter/join/group/order/distinct/analytic/DML/file-load workloads at @@CPU 2..8",
+    "text": "PARTIAL. Lean 4 proof of the access discipline (own-index with disjoint ranges / sole goroutine / common lock / synchronisation object / read-only => no data race in ANY interleaving of ANY fork-join execution, all n, all access lists) and of the partition GoroutineTaskManager.RecordRange as generated from the source on every run (disjoint, tiles [0,len) in order, all len, all n>0; plus the stride and partition index spaces); the access facts of every worker closure of lib/query are regenerated from /repo and checked by `decide` (theorems facts_ok, facts_consistent, manager_fields_locked: consistent per location, NO unguarded access; pre-finding F7 was repaired in /repo by commit bec97d6 and stays watched: a new unguarded access breaks facts_ok and is reported as race:<file>:<function>:<variable>). TRUSTED, not proved: the step 'syntactic class => actual access pattern of the running program' (plain function callees of the closures are not analysed; methods called on shared objects are summarised from their source) and the Go memory model; cross-checked on every run by the Go race detector over filter/join/group/order/distinct/analytic/DML/file-load workloads at @@CPU 2..8",
     "design_ref": "DESIGN.md section 5, C13",
     "note": "trusted: Lean kernel (propext, Classical.choice, Quot.sound only), the extractor extract/parfacts (syntactic, go/types; refuses unknown constructs), the lockset definition of a race in Csvq/Model/ForkJoin.lean as a rendering of the Go memory model for fork-join regions, Go's race detector (finds only races that occur in the executed schedules), 64-bit overflow ignored in RecordRange",
     "technique": "Lean 4 machine-checked proof of a race-freedom discipline + facts regenerated from the Go source (go/ast, go/types) checked by kernel evaluation + dynamic cross-check with `go build -race`",
@@ -31,7 +31,7 @@ def run(run):
     q = run.tier == "quick"
     run.assumptions += [
         "F7 (HasError/Err without the mutex; pos/err shared by the loader goroutines) is fixed in /repo (bec97d6); the sites are still extracted, proved guarded/atomic/sole-goroutine on every run and exercised under the race detector",
-        "TRUSTED: an access the extractor classifies ownIndex/guarded/chan/wg/readOnly really has that access pattern at run time (functions CALLED from the worker closures are not analysed; method calls on a shared receiver count as reads of it)",
+        "TRUSTED: an access the extractor classifies ownIndex/guarded/chan/wg/readOnly really has that access pattern at run time (functions CALLED from the worker closures are not analysed, except METHODS called on a shared object: their source (module, dependencies, standard library) is summarised into reads/writes of the receiver's fields, transitively over the type's own methods and one level into the fields' methods; unresolved effects count as writes; a receiver handed on as an argument and local aliases of receiver fields are not followed)",
         "TRUSTED: Go memory model; a data race is rendered as: two accesses of different goroutines of one fork-join region, same location, one a write, disjoint locksets, not both operations of a synchronisation object",
         "index space 'partition' (analytic functions): the row numbers a worker draws from its own partitions[...] element belong to that partition (proved: distinct partitions are disjoint, partitions_disjoint)",
         "RecordRange arithmetic is translated over unbounded Int (no 64-bit overflow: every intermediate value is at most recordLen)",
@@ -98,9 +98,9 @@ def run(run):
                               for f in facts[:: max(1, len(facts) // 5)]][:5] + run.cov["samples"]
     return run.finish(
         level="proof",
-        rule="static: every access to a shared variable in every fork-join region of lib/query (closures passed to GoroutineTaskManager.Run / EvaluateSequentially, bodies started with go, the parent between fork and join, methods of the manager types), classified and checked by kernel evaluation; dynamic: statements of 47 kinds (6 file formats, filters, 7 join forms, GROUP BY/HAVING, ORDER BY, DISTINCT, set operators, 4 analytic families, recursive CTE, DML, cursor, 6 failing statements) on tables of 200-3000 rows with @@CPU drawn from 2..8 under the race detector; non-trivial = distinct (statement kind, @@CPU, row band, error code)",
+        rule="static: every access to a shared variable in every fork-join region of lib/query (closures passed to GoroutineTaskManager.Run / EvaluateSequentially, bodies started with go, the parent between fork and join, methods of the manager types), classified and checked by kernel evaluation; dynamic: a load matrix first (CSV, TSV, fixed-length, LTSV, JSONL, JSON; from a file and from stdin; with and without header; row counts 159/161/299/301/650 in the quick tier and 1..2500 around 80, 160, 300, 320, 600, 640 in the thorough tier, on both sides of the 300-record loader buffer and of the 80-rows-per-worker threshold; @@CPU 1, 2, 4, 8), then statements of 47 kinds (6 file formats, filters, 7 join forms, GROUP BY/HAVING, ORDER BY, DISTINCT, set operators, 4 analytic families, recursive CTE, DML, cursor, 6 failing statements) on tables of 200-3000 rows with @@CPU drawn from 2..8 under the race detector; non-trivial = distinct (statement kind, @@CPU, row band, error code)",
         trusted_base=BASE_TRUST + [
-            "extract/parfacts: syntactic access classification (go/ast + go/types), refuses constructs without a rule; callees of worker closures are not analysed",
+            "extract/parfacts: syntactic access classification (go/ast + go/types), refuses constructs without a rule; plain function callees of worker closures are not analysed; method summaries are syntactic",
             "the Go memory model, rendered as the lockset race definition of Csvq/Model/ForkJoin.lean",
             "the Go race detector (dynamic cross-check; sees only the schedules that occurred)"],
         checker_cmd="cd /verif && go run -C extract/parfacts . parfacts > lean/Csvq/Gen/ParFacts.lean && go run -C extract/parfacts . recordrange > lean/Csvq/Gen/RecordRange.lean && cd lean && lake build Csvq.Props.C13 && lake env lean <#print axioms for every theorem>; cd /verif/harness && CGO_ENABLED=1 go build -race -tags verif ./cmd/c13",
